@@ -134,6 +134,11 @@ def oracle(case, obs) -> List[str]:
         return []     # the independent oracle only handles positive-duration host operators
     if any(x[2] == 0 for x in host):
         return []     # zero-duration host events: placement is not unique, leave to the model comparison
+    if len({(x[3], x[4]) for x in host}) > 1:
+        # with a second host thread the call graph attaches that thread's top-level nodes beneath the step /
+        # backward annotation (C13), which changes what lies "under" an operator: the per-thread containment
+        # oracle does not apply; the model (which implements the attachment) decides these cases
+        return []
     depth = {x[0]: sum(1 for a in host if encl(a, x)) for x in cands}
     dmin = min(depth.values())
     exp: Dict[str, List[int]] = {}
